@@ -59,7 +59,11 @@ def oracle(op, L, R):
         if L[0] == "s":
             return ("accept", wc(R), ("s", c), wc(R))
         if L[0] == "v" and R[0] == "m":
-            return ("unspec", "vector x matrix")
+            # "a matrix times a matrix or vector": the left operand has to be a matrix.  Only if the vector is read as an
+            # N x 1 matrix could N x 1 times 1 x C be meant; every other vector x matrix has disagreeing inner dimensions anyway
+            if R[2] == 1:
+                return ("unspec", "vector x one-row matrix")
+            return ("reject",)
         if L[0] == "m" and R[0] == "m":
             if L[3] != R[2]:
                 return ("reject",)
